@@ -177,9 +177,9 @@ Qed.
 (* PairV2.SellWithOrders: whatever the oracle answers, a completed trade leaves the
    product of the reserves no smaller and both reserves positive, and pays out less than
    the pool held *)
-Lemma sell_with_orders_K r0 r1 book a m t :
+Lemma sell_with_orders_K dir r0 r1 book a m t :
   0 < r0 -> 0 < r1 ->
-  sell_with_orders orc rmi r0 r1 book a m = Val t ->
+  sell_with_orders orc rmi dir r0 r1 book a m = Val t ->
   r0 * r1 <= t_r0 t * t_r1 t /\ r0 <= t_r0 t /\ 0 < t_r1 t /\ 0 < t_out t /\ m <= t_out t.
 Proof.
   intros H0 H1. unfold sell_with_orders.
@@ -188,7 +188,7 @@ Proof.
   destruct (bfs_loop orc rmi r0 r1 (a - com1000 a) book) as [[out fs]| |] eqn:E; [|discriminate|discriminate].
   destruct (Z.ltb_spec 0 out) as [Hout|]; cbn [negb]; [|discriminate].
   unfold calc_diff_pool.
-  destruct (apply_fills fs book) as [book' refunds].
+  destruct (apply_fills dir fs book) as [book' refunds].
   destruct (Z.ltb_spec out m); [discriminate|].
   intros HH; injection HH as <-. cbn [t_r0 t_r1 t_out].
   pose proof (bfs_loop_inv book r0 r1 (a - com1000 a) out fs H0 H1 (Z.lt_le_incl _ _ Hain) E) as (PK & P0 & P1 & P2).
@@ -300,9 +300,9 @@ Proof.
            lia.
 Qed.
 
-Lemma buy_with_orders_K r0 r1 book m o t :
+Lemma buy_with_orders_K dir r0 r1 book m o t :
   0 < r0 -> 0 < r1 ->
-  buy_with_orders orc rdi r0 r1 book m o = Val t ->
+  buy_with_orders orc rdi dir r0 r1 book m o = Val t ->
   r0 * r1 <= t_r0 t * t_r1 t /\ r0 <= t_r0 t /\ 0 < t_r1 t /\ t_out t = o /\ 0 < t_in t.
 Proof.
   intros H0 H1. unfold buy_with_orders.
@@ -310,7 +310,7 @@ Proof.
   destruct (sfb_loop orc rdi r0 r1 o book) as [[i fs]| |] eqn:E; [|discriminate|discriminate].
   destruct (Z.ltb_spec 0 i) as [Hi|]; cbn [negb]; [|discriminate].
   unfold calc_diff_pool.
-  destruct (apply_fills fs book) as [book' refunds].
+  destruct (apply_fills dir fs book) as [book' refunds].
   destruct (Z.ltb_spec m o); [discriminate|].
   intros HH; injection HH as <-. cbn [t_r0 t_r1 t_out t_in].
   pose proof (sfb_loop_inv book r0 r1 o i fs H0 H1 (Z.lt_le_incl _ _ Ho) E) as (PK & P0 & P1 & P2).
